@@ -1936,6 +1936,73 @@ def accw_toggle_part(run, r, runner, n):
         run.count("accwtoggle%d" % k, True)
 
 
+def tsf_tie_part(run, r, runner, n):
+    """timeStepFactor 2, 3, 5 on restraints with fixed, continuously moving and staged centres, every segmentation: the extracted
+    protocol run_tsf (coq/C06/RestraintTSF.v) against the implementation after every event (centres, stage, first step), and
+    the closed form of C06_center_schedule_timestepfactor: centre = schedule at the last updated step."""
+    cases = []
+    tries = 0
+    while len(cases) < n and tries < 60 * n:
+        tries += 1
+        c = gen_case(r, len(cases))
+        if c["kind"] == "walls" or c["mode"] not in ("none", "cc", "cs") or c["it0"] > 2 ** 40:
+            continue
+        c["accw"] = False
+        c["tsf"] = r.choice([2, 3, 5])
+        cases.append(c)
+    scn, ml, ds = [], [], []
+    for k, c in enumerate(cases):
+        L = scenario(c, k, runner.scratch)
+        L = [("  timeStepFactor %d\n}" % c["tsf"]).split("\n") if False else l for l in L]
+        out = []
+        inbias = False
+        for l in L:
+            if l.startswith(("harmonic {", "linear {")):
+                inbias = True
+            if inbias and l == "}":
+                out.append("  timeStepFactor %d" % c["tsf"])
+                inbias = False
+            out.append(l)
+        scn += out
+        m_, d = model_case(c, runner.wallsinit)
+        ml.append("RUNF %d %s" % (c["tsf"], m_[4:]))
+        ds.append(d)
+    rc, mout, e = V.run_lines(runner.model, ml)
+    rc2, iout, e2 = V.run_lines(runner.unit, scn, cwd=runner.scratch, timeout=900)
+    impl = parse_impl(iout)
+    for k, c in enumerate(cases):
+        cs = impl.get(k)
+        f = c["tsf"]
+        run.dist("timeStepFactor-%d:%s" % (f, c["mode"]))
+        rp = {"kind": "scenario", "case": c, "timeStepFactor": f}
+        if cs is None or not cs["complete"] or len(cs["steps"]) != len(c["events"]) or any("err=ok" not in l for l in cs["config"]):
+            run.mismatch("timestepfactor", {"case": c}, ((cs or {}).get("config", []) + (cs or {}).get("raw", []))[-3:], "complete run")
+            continue
+        recs = [parse_fields(p_) for p_ in (mout[k].split(" ; ") if k < len(mout) else [])]
+        first = c["it0"]
+        bad = None
+        for j, o in enumerate(cs["steps"]):
+            t = o["it"]
+            tu = f * (t // f)
+            # closed form (continuous): the schedule at the last updated step, the configured centres before the first update
+            if c["mode"] == "cc":
+                want = [fr(x) for x in c["centers"]] if tu < first else spec_centers(c, ds[k], tu, first)
+                if not all(same_mod(a, b, v) for a, b, v in zip(want, o["C"], c["vars"])):
+                    run.violation("timestepfactor:continuous-centers", "timeStepFactor %d, step %d (first %d, N %d): centres %r, the schedule at the last updated step %d gives %r" % (f, t, first, c["N"], o["C"], tu, [float(x) for x in want]), rp)
+                    break
+            if j < len(recs) and bad is None:
+                d_ = recs[j]
+                mc = flist(d_["C"])
+                if int(d_["it"]) != t or int(d_["ST"]) != o["ST"] or (c["mode"] != "none" and int(d_["FS"]) != o["FS"]) or \
+                   not all(same_mod(a, b, v) for a, b, v in zip(mc, o["C"], c["vars"])):
+                    bad = "event %d step %d: centres/stage/first impl %r %d %d, model %r %s %s" % (j, t, o["C"], o["ST"], o["FS"], mc, d_["ST"], d_["FS"])
+        if len(recs) != len(cs["steps"]):
+            bad = bad or "model executed %d events, implementation %d" % (len(recs), len(cs["steps"]))
+        if bad:
+            run.mismatch("timestepfactor", {"case": c, "model_case": ml[k]}, bad, "agreement")
+        run.count("tsftie%d" % k, c["mode"] != "none")
+
+
 def tsf_part(run, runner):
     """timeStepFactor f > 1: the bias is updated every f steps.  Continuous schedules are evaluated at the updated steps
     (and are stale in between, by design); staged schedules test exact step numbers and miss them (recorded finding)."""
@@ -2199,6 +2266,7 @@ def check(run):
     session_part(run, r, runner, 30 if quick else 800)
     extl_part(run, r, runner, 30 if quick else 800)
     tsf_part(run, runner)
+    tsf_tie_part(run, r, runner, 40 if quick else 1000)
     ti_part(run, r, runner, 40 if quick else 1500)
     run.cov["correspondence"].update({"scenarios": len(cases), "regression_scenarios": len(wit)})
 
